@@ -131,6 +131,33 @@ pub fn faulty_script(r: &mut Rng) -> ReaderScript {
         }
     }
     s.steps = steps;
+    if r.chance(1, 5) {
+        add_storms(r, &mut s);
+    }
+    s
+}
+
+/// runs of consecutive Interrupted results (a signal storm): legal, to be retried for as long as it lasts
+pub fn add_storms(r: &mut Rng, s: &mut ReaderScript) {
+    let storms = 1 + r.usize_below(3);
+    for _ in 0..storms {
+        let k = match r.below(6) {
+            0 => 100 + r.usize_below(400),
+            1 => 15 + r.usize_below(5),
+            2 => 2 + r.usize_below(6),
+            _ => 8 + r.usize_below(9),
+        };
+        let at = r.usize_below(s.steps.len() + 1);
+        for _ in 0..k {
+            s.steps.insert(at, RStep::Interrupted);
+        }
+    }
+}
+
+/// fault-free data delivery interrupted by storms
+pub fn stormy_script(r: &mut Rng) -> ReaderScript {
+    let mut s = clean_script(r);
+    add_storms(r, &mut s);
     s
 }
 
@@ -308,7 +335,7 @@ pub fn adapter(r: &mut Rng, len: usize, mix: &AdapterMix) -> AbsorbVia {
         return AbsorbVia::SimJoin(join_policy(r));
     }
     if mix.rayon && x < 86 {
-        return AbsorbVia::Rayon { width: 1 + r.below(8) as u8 };
+        return AbsorbVia::Rayon { width: r.below(9) as u8 }; // 0 = the process's global pool
     }
     if mix.mmap && x < 89 {
         return r.pick(&[AbsorbVia::Mmap, AbsorbVia::MmapRayon, AbsorbVia::ReaderFile]).clone();
@@ -842,7 +869,7 @@ pub fn c08(base_seed: u64, i: u64, g: &GenCtx) -> Plan {
             }
             for len in lens {
                 let via = if real_rayon {
-                    if r.chance(1, 3) { AbsorbVia::MmapRayon } else { AbsorbVia::Rayon { width: *r.pick(&[1u8, 2, 4, 16]) } }
+                    if r.chance(1, 3) { AbsorbVia::MmapRayon } else { AbsorbVia::Rayon { width: *r.pick(&[0u8, 1, 2, 4, 16]) } }
                 } else {
                     AbsorbVia::SimJoin(join_policy(&mut r))
                 };
@@ -934,7 +961,13 @@ fn solo_program(r: &mut Rng, data: &mut Vec<DataSpec>, slot: &mut usize, g: &Gen
                 let mixa = AdapterMix { io: true, rayon: false, simjoin: false, mmap: false, traits: false };
                 let mut off = 0;
                 for f in fragments(r, total) {
-                    ops.push(Op::Absorb { h, data: di, off, len: f, via: adapter(r, f, &mixa) });
+                    let mut via = adapter(r, f, &mixa);
+                    if matches!(via, AbsorbVia::Reader(_) | AbsorbVia::ReaderDyn(_) | AbsorbVia::IoCopy(_)) && r.chance(1, 2) {
+                        // the reader of this caller is hit by signals or fails: nobody else's business
+                        let sc = if r.chance(1, 4) { faulty_script(r) } else { stormy_script(r) };
+                        via = reader_via(r, sc);
+                    }
+                    ops.push(Op::Absorb { h, data: di, off, len: f, via });
                     off += f;
                     if r.chance(1, 3) {
                         ops.push(query_op(r, h, false));
@@ -1080,11 +1113,25 @@ pub fn c09(base_seed: u64, i: u64, g: &GenCtx) -> Plan {
                 tasks[w2].push(Op::SetOffset { h, off: sh.off as u64 });
             }
             let mut o = sh.off;
+            let mut h = h;
             for f in fragments(&mut r, sh.len) {
                 tasks[w2].push(Op::Absorb { h, data: 0, off: o, len: f, via: adapter(&mut r, f, &mixa) });
                 o += f;
                 if r.chance(1, 6) {
                     tasks[w2].push(Op::Count { h });
+                }
+                if r.chance(1, 10) {
+                    // checkpoint / hand-over inside a shard: the work continues on a clone of the subtree hasher
+                    let h2 = hslot;
+                    hslot += 1;
+                    if r.chance(1, 2) {
+                        tasks[w2].push(Op::CloneH { h, new: h2 });
+                    } else {
+                        tasks[w2].push(Op::NewHasher { slot: h2, mode: m.clone(), via: NewVia::Inherent });
+                        tasks[w2].push(Op::CloneFromH { src: h, dst: h2 });
+                    }
+                    tasks[w2].push(Op::DropSlot { slot: h });
+                    h = h2;
                 }
             }
             let cv = if c == 0 { sh.cv } else { dup_slot += 1; dup_slot };
@@ -1379,6 +1426,11 @@ pub fn c17(base_seed: u64, i: u64, g: &GenCtx) -> Plan {
         let h = slot;
         slot += 1;
         ops.push(Op::NewHasher { slot: h, mode: m, via: NewVia::Inherent });
+        let sub_off = if r.chance(1, 4) { valid_offset(&mut r) } else { 0 };
+        if sub_off != 0 {
+            // a subtree hasher (hazmat input offset): its Debug output and wiping are held to the same standard
+            ops.push(Op::SetOffset { h, off: sub_off });
+        }
         // partial block >= 8 bytes and stack depth >= 2 are the interesting states
         let total = match r.below(4) {
             0 => size(&mut r, max),
@@ -1464,6 +1516,8 @@ fn c_mask(r: &mut Rng) -> u32 {
         0 => 0x7f,
         1 => 0,
         2 => *r.pick(&[0x01u32, 0x03, 0x07, 0x0f, 0x1f, 0x3f, 0x5f]),
+        // cold feature cache: the dispatcher detects the CPU during the first call of the history
+        3 => u32::MAX,
         _ => r.below(128) as u32,
     }
 }
@@ -1615,6 +1669,26 @@ pub fn nasty_path(r: &mut Rng) -> Vec<u8> {
     }
 }
 
+/// a long relative path (nested directories, up to ~3.9 KiB) made mostly of characters that need escaping: its
+/// checkfile line is far longer than the path itself
+pub fn deep_nasty_path(r: &mut Rng) -> Vec<u8> {
+    let target = *r.pick(&[600usize, 2000, 2100, 2200, 3000, 3900]);
+    let mut p: Vec<u8> = Vec::new();
+    while p.len() < target {
+        if !p.is_empty() {
+            p.push(b'/');
+        }
+        let clen = (60 + r.usize_below(190)).min(target + 1 - p.len()).max(1);
+        let fill: &[u8] = *r.pick(&[&b"\n"[..], &b"\\"[..], &b"\r\n"[..], &b"\n\\a"[..], &b"\\ "[..]]);
+        // first byte of a component: never '.', '-' or '/'
+        p.push(b'd');
+        for k in 1..clen {
+            p.push(fill[k % fill.len()]);
+        }
+    }
+    p
+}
+
 fn file_len(r: &mut Rng) -> usize {
     match r.below(8) {
         0 => 0,
@@ -1674,6 +1748,14 @@ pub fn c12_hash(base_seed: u64, i: u64, _g: &GenCtx) -> Plan {
         }
         if r.chance(1, 2) {
             f.length = Some(*r.pick(&[0u64, 1, 31, 32, 33, 64, 65, 131, 1000, 10000]));
+            if r.chance(1, 12) {
+                // long outputs: many writes to stdout, buffer boundaries of the output path
+                f.length = Some(match r.below(4) {
+                    0 => 65536 + r.below(3) - 1,
+                    1 => 8192 * (1 + r.below(40)) + r.below(3) - 1,
+                    _ => 70_000 + r.below(950_000),
+                });
+            }
         }
         f.seek = cli_seek(&mut r, f.length.unwrap_or(32));
         f.no_mmap = r.chance(1, 3);
@@ -1756,6 +1838,9 @@ fn check_scenario(r: &mut Rng, prop: &str, family: &str, seed: u64, nasty_p: u64
         paths.push(a.to_vec());
         paths.push(b.to_vec());
     }
+    if r.below(1000) < nasty_p * 2 {
+        paths.push(deep_nasty_path(r));
+    }
     while paths.len() < nfiles {
         let p = if r.below(100) < nasty_p { nasty_path(r) } else { PLAIN_NAMES[r.usize_below(PLAIN_NAMES.len())].to_vec() };
         if !paths.contains(&p) {
@@ -1792,6 +1877,11 @@ fn check_scenario(r: &mut Rng, prop: &str, family: &str, seed: u64, nasty_p: u64
         ops.push(Op::CliHash { paths: ps, flags: f, stdin: None, save: Some(c) });
         cfs.push(c);
     }
+    if ncf == 2 && r.chance(1, 3) {
+        // one checkfile made of both (plain and --tag lines mixed, in either order)
+        let (a, b) = if r.chance(1, 2) { (0, 1) } else { (1, 0) };
+        ops.push(Op::CliDamage { cf: a, kind: Damage::Concat { other: b } });
+    }
     // faults between the two runs
     let nf = r.usize_below(4);
     for _ in 0..nf {
@@ -1819,6 +1909,52 @@ pub fn c12_check(base_seed: u64, i: u64, _g: &GenCtx) -> Plan {
     check_scenario(&mut r, "C12", "c12-check", seed, 15)
 }
 
+/// C12: --check runs whose number of failing entries reaches 255..257, 512, 65536 ... (the count decides the exit status)
+pub fn c12_manyfail(base_seed: u64, i: u64, _g: &GenCtx) -> Plan {
+    let seed = mix(base_seed ^ 0xC12F, i);
+    let mut r = Rng::new(seed);
+    let mut data = Vec::new();
+    let mut ops = Vec::new();
+    let nfiles = 1 + r.usize_below(2);
+    let mut paths = Vec::new();
+    for k in 0..nfiles {
+        let len = r.usize_below(200);
+        data.push(DataSpec::Random { seed: r.next(), len });
+        ops.push(Op::CliFile { path_hex: hexs(PLAIN_NAMES[k]), data: data.len() - 1 });
+        paths.push(hexs(PLAIN_NAMES[k]));
+    }
+    let ncf = 1 + r.usize_below(2);
+    let mut cfs = Vec::new();
+    for c in 0..ncf {
+        let f = CliFlags { tag: r.chance(1, 2), ..CliFlags::default() };
+        ops.push(Op::CliHash { paths: paths.clone(), flags: f, stdin: None, save: Some(c) });
+        cfs.push(c);
+    }
+    // total failing entries: around a multiple of 256 (mostly exactly on it), split over the checkfiles
+    let base = *r.pick(&[256usize, 256, 256, 512, 768, 1024, 65536, 65536 + 256]);
+    let total = match r.below(6) {
+        0 => base - 1,
+        1 => base + 1,
+        _ => base,
+    };
+    let first = if ncf == 2 { r.usize_below(total + 1) } else { total };
+    let lines: &[&[u8]] = &[
+        b"garbage",
+        b"0000000000000000000000000000000000000000000000000000000000000000  no-such-file",
+        b"0000000000000000000000000000000000000000000000000000000000000000  a",
+        b"BLAKE3 (a) = 00",
+        b"",
+    ];
+    for (k, n) in [(0usize, first), (1, total - first)] {
+        if k < ncf && n > 0 {
+            ops.push(Op::CliDamage { cf: k, kind: Damage::AppendLines { text_hex: hexs(*r.pick(lines)), n } });
+        }
+    }
+    let f = CliFlags { no_mmap: r.chance(1, 3), ..CliFlags::default() };
+    ops.push(Op::CliCheck { cfs, flags: f, quiet: r.chance(1, 2), via_stdin: false });
+    single("C12", "c12-manyfail", seed, Cfg::default(), data, Level::Detect, ops)
+}
+
 pub fn c13_e2e(base_seed: u64, i: u64, _g: &GenCtx) -> Plan {
     let seed = mix(base_seed ^ 0xC13E, i);
     let mut r = Rng::new(seed);
@@ -1831,10 +1967,16 @@ pub fn c13_parse(base_seed: u64, i: u64, _g: &GenCtx) -> Plan {
     let mut ops = Vec::new();
     let n = 1 + r.usize_below(4);
     for _ in 0..n {
-        let p = if r.chance(1, 5) { PLAIN_NAMES[r.usize_below(PLAIN_NAMES.len())].to_vec() } else { nasty_path(&mut r) };
+        let p = if r.chance(1, 5) {
+            PLAIN_NAMES[r.usize_below(PLAIN_NAMES.len())].to_vec()
+        } else if r.chance(1, 30) {
+            deep_nasty_path(&mut r)
+        } else {
+            nasty_path(&mut r)
+        };
         let (tag, crlf) = (r.chance(1, 2), r.chance(1, 3));
         ops.push(Op::PathRoundTrip { path_hex: hexs(&p), tag, crlf });
-        if r.chance(1, 3) {
+        if r.chance(1, 3) && p.len() <= 300 {
             ops.push(Op::ParseMutations { path_hex: hexs(&p), tag, crlf });
         }
     }
@@ -1885,6 +2027,10 @@ pub fn c08_bigmmap(base_seed: u64, i: u64, g: &GenCtx) -> Plan {
     let seed = mix(base_seed ^ 0xB166, i);
     let mut r = Rng::new(seed);
     let mib = 1usize << 20;
+    if r.chance(1, 12) {
+        // a large file that cannot be mapped (sysfs): update_mmap_rayon must fall back to reads, also when called again
+        return single("C08", "c08-bigmmap", seed, Cfg::default(), Vec::new(), Level::Detect, vec![Op::FileKinds { kind: 4 }, Op::FileKinds { kind: 4 }]);
+    }
     let len = match r.below(5) {
         0 => 8 * mib + 1 + r.usize_below(5000),
         1 => 16 * mib + r.usize_below(mib),
@@ -1931,7 +2077,13 @@ pub fn c18_streams(base_seed: u64, i: u64, g: &GenCtx) -> Plan {
             let h = slot;
             slot += 1;
             ops.push(Op::NewHasher { slot: h, mode: mode(&mut r, &mut data), via: NewVia::Inherent });
-            let script = ReaderScript { steps: vec![], junk: r.chance(1, 2), tail_chunk: *r.pick(&[0u32, 65536, 1 << 20, 70000]) };
+            let mut script = ReaderScript { steps: vec![], junk: r.chance(1, 2), tail_chunk: *r.pick(&[0u32, 65536, 1 << 20, 70000]) };
+            if r.chance(1, 3) {
+                for _ in 0..r.usize_below(6) {
+                    script.steps.push(RStep::Data(read_chunk(&mut r)));
+                }
+                add_storms(&mut r, &mut script);
+            }
             ops.push(Op::Absorb { h, data: di, off: 0, len, via: reader_via(&mut r, script) });
             ops.push(Op::Finalize { h, via: FinVia::Inherent });
         }
@@ -1940,6 +2092,47 @@ pub fn c18_streams(base_seed: u64, i: u64, g: &GenCtx) -> Plan {
     let mut p = multi("C18", "c18-streams", seed, Cfg { pool_width: 1, ..Cfg::default() }, data, tasks, &mut r);
     // long runs: sticky schedules so that each task makes real progress between switches
     p.schedule = Schedule::Gen { kind: *r.pick(&[SchedKind::Sticky { switch: 26 }, SchedKind::Sticky { switch: 3 }, SchedKind::Bursty { points: 3, horizon: 600 }]), seed: r.next() };
+    p
+}
+
+/// C18: independent hashers on several tasks hashing the SAME files (mapped, mapped + rayon, read)
+pub fn c18_sharedfile(base_seed: u64, i: u64, g: &GenCtx) -> Plan {
+    let seed = mix(base_seed ^ 0x5F11E, i);
+    let mut r = Rng::new(seed);
+    let ntasks = 2 + r.usize_below(3);
+    let mut data = Vec::new();
+    let nfiles = 1 + r.usize_below(2);
+    for _ in 0..nfiles {
+        let len = match r.below(5) {
+            0 => 16383 + r.usize_below(3),
+            1 => r.usize_below(16384),
+            2 => 16384 + r.usize_below(20 * KIB),
+            _ => 16 * KIB + r.usize_below(if g.tier_thorough { 600 * KIB } else { 150 * KIB }),
+        };
+        data.push(DataSpec::Random { seed: r.next(), len });
+    }
+    data.push(DataSpec::Random { seed: r.next(), len: 3000 });
+    let pre = data.len() - 1;
+    let mut tasks = Vec::new();
+    let mut slot = 0;
+    for _ in 0..ntasks {
+        let mut ops = Vec::new();
+        for _ in 0..(1 + r.usize_below(3)) {
+            let h = slot;
+            slot += 1;
+            ops.push(Op::NewHasher { slot: h, mode: mode(&mut r, &mut data), via: NewVia::Inherent });
+            if r.chance(1, 3) {
+                ops.push(Op::Absorb { h, data: pre, off: 0, len: r.usize_below(3000), via: AbsorbVia::Update });
+            }
+            let f = r.usize_below(nfiles);
+            let len = data[f].len();
+            ops.push(Op::Absorb { h, data: f, off: 0, len, via: AbsorbVia::SharedFile { how: r.below(3) as u8 } });
+            ops.push(Op::Finalize { h, via: FinVia::Inherent });
+        }
+        tasks.push(TaskPlan { level: level(&mut r, g.avail), ops });
+    }
+    let mut p = multi("C18", "c18-sharedfile", seed, Cfg { pool_width: 1, ..Cfg::default() }, data, tasks, &mut r);
+    p.schedule = schedule(&mut r);
     p
 }
 
@@ -1992,6 +2185,32 @@ pub fn c07_capi(base_seed: u64, i: u64, g: &GenCtx) -> Plan {
     let mut p = c06(base_seed ^ 0x707, i, g);
     p.prop = "C07".into();
     p.family = "c07-c-api".into();
+    p.cfg.guard_alloc = true;
+    p
+}
+
+/// C07: one finalize call with out_len just above 2^32 (size_t arithmetic the 32-bit habits get wrong)
+pub fn c07_hugeout(base_seed: u64, i: u64, _g: &GenCtx) -> Plan {
+    let seed = mix(base_seed ^ 0x4064, i);
+    let mut r = Rng::new(seed);
+    let mut data = Vec::new();
+    let m = c_mode(&mut r, &mut data);
+    let len = r.usize_below(3000);
+    data.push(DataSpec::Random { seed: r.next(), len });
+    let di = data.len() - 1;
+    let seek = match r.below(3) {
+        0 => None,
+        1 => Some(r.below(200)),
+        _ => Some(xof_pos(&mut r).min(u64::MAX - (1u64 << 33))),
+    };
+    let ops = vec![
+        Op::CSetMask { mask: 0x7f },
+        Op::CInit { slot: 0, flavour: r.below(2) as u8, mode: m, raw: false },
+        Op::CUpdate { c: 0, data: di, off: 0, len, tbb: None },
+        Op::CFinalizeHuge { c: 0, seek, extra: *r.pick(&[0u32, 1, 63, 64, 65, 200]) },
+        Op::CFinalize { c: 0, seek: None, out_len: 32 },
+    ];
+    let mut p = single("C07", "c07-hugeout", seed, Cfg::default(), data, Level::Detect, ops);
     p.cfg.guard_alloc = true;
     p
 }
